@@ -837,7 +837,9 @@ class PathsOps(Oracle):
                 if int(f[2]):
                     known = ("path-both-quotes", "document %d" % k)
                 elif len(f) > 5 and int(f[5]):
-                    known = known or ("xpath-noprefix-other-module", "document %d" % k)
+                    # fixed in /repo b180fe8 (an unprefixed name inherits the module of its parent): a violation now
+                    return (None, "document %d: lyd_find_xpath() with an unprefixed last name also selects the node that "
+                                  "another module augments in (%s nodes)" % (k, f[5]))
             return known
         if len(docs) != len(info):
             return (None, "driver protocol: %d documents, %d answers" % (len(info), len(docs)))
@@ -857,7 +859,9 @@ class PathsOps(Oracle):
                     return (None, "%s: driver skipped %s nodes for both quote characters but no such value was generated" % (what, f[2]))
                 known = ("path-both-quotes", "%s: %s nodes whose path needs a value holding both quote characters" % (what, f[2]))
             if len(f) > 5 and int(f[5]):
-                known = known or ("xpath-noprefix-other-module", "%s: %s nodes; e.g. see the replay of the finding" % (what, f[5]))
+                # fixed in /repo b180fe8 (an unprefixed name inherits the module of its parent): a violation now
+                return (None, "%s: lyd_find_xpath() with an unprefixed last name also selects the node that another "
+                              "module augments in (%s nodes)" % (what, f[5]))
             got = sorted(untext(h) for h in f[4].split(",")) if f[4] else []
             if got != inf["paths"]:
                 only_got = [p for p in got if p not in inf["paths"]]
